@@ -297,9 +297,14 @@ func (p *Prog) implicitRecvNonNil(fn *ssa.Function) bool {
 	used := false
 	if refs := recv.Referrers(); refs != nil {
 		for _, r := range *refs {
-			if _, isDbg := r.(*ssa.DebugRef); !isDbg {
-				used = true
+			if _, isDbg := r.(*ssa.DebugRef); isDbg {
+				continue
 			}
+			// handing the receiver on to another call is not a use here: the callee states its own requirement
+			if c, isCall := r.(*ssa.Call); isCall && c.Call.Value != recv {
+				continue
+			}
+			used = true
 		}
 	}
 	if !used {
